@@ -5,6 +5,7 @@
 mod alloc_track;
 mod apidiff;
 mod ops;
+mod panicapi;
 
 use std::io::{Read, Write};
 use std::sync::atomic::Ordering::Relaxed;
@@ -195,6 +196,10 @@ mod stdrc {
 fn main() {
     let args: Vec<String> = std::env::args().collect();
     let mode = args.get(1).map(String::as_str).unwrap_or("cactus");
+    if mode == "panicapi" {
+        alloc_track::TRACK.store(false, Relaxed);
+        std::process::exit(panicapi::main());
+    }
     if mode == "apidiff" {
         alloc_track::TRACK.store(false, Relaxed);
         let seeds: u64 = args.get(2).and_then(|x| x.parse().ok()).unwrap_or(20);
@@ -219,7 +224,7 @@ fn main() {
             }
         }
     }
-    if mode != "cactus" && mode != "std" && mode != "bigring" && mode != "apidiff" {
+    if mode != "cactus" && mode != "std" && mode != "bigring" && mode != "apidiff" && mode != "panicapi" {
         eprintln!("unknown mode {}", mode);
         std::process::exit(2);
     }
